@@ -9,6 +9,10 @@ package main
 // Plans of 5-8 chunks for 1-3 workers put the failing STATUS in front of a worker that has served chunks before; the
 // start offset rotates (zero, small, beyond the length of the call's buffer).
 //
+// The status codes include values beyond 255 whose low byte is that of SSH_FX_OK / SSH_FX_EOF and draws from all of
+// uint32. Beside the scripted peer a real request server runs over handlers whose ReadAt / WriteAt fail at a byte offset
+// with (0, err) and (n > 0, err) for every kind of error value (c13_fault.go).
+//
 // Direct oracles on (n, err), the bytes delivered / stored and the File offset:
 //   err != nil; first n bytes moved intact and contiguously; err is the status of the LOWEST
 //   failing offset (each failing offset gets its own message); io.EOF only at the true end of
@@ -25,6 +29,7 @@ import (
 	"io"
 	"math/rand"
 	"os"
+	"path/filepath"
 	"runtime"
 	"sort"
 	"strings"
@@ -346,8 +351,43 @@ func xfC13Check(cs xfCase, out xfOutcome, fail xfFailer) (f6 bool) {
 // All codes of the protocol that say "not OK" (1..8) and codes it does not define (9, 255, 2^32-1); FAILURE is the most
 // frequent. SSH_FX_EOF is one of them: as the answer to a READ it is the server's way of saying where the file ends, as
 // the answer to a WRITE it is a failure like any other.
+//
+// The code of a status is a uint32 and a client has to pass on whatever it does not know: the codes whose LOW BYTE (low
+// 16 bits) is that of SSH_FX_OK or SSH_FX_EOF - 256, 257, 512, 513, 0x10000, 0x10001, 0xFFFFFF00, 0xFFFFFF01 - are
+// failures like any other (never success, never end of file). Each job adds draws from the whole uint32 range
+// (xfJobCodes).
 var xfFailCodes = []uint32{wire.Failure, wire.PermissionDenied, wire.EOF, wire.OpUnsupported, wire.Failure, wire.BadMessage, wire.NoSuchFile, wire.ConnectionLost,
-	wire.NoConnection, 9, wire.EOF, 255, 4294967295}
+	wire.NoConnection, 9, wire.EOF, 255, 4294967295,
+	256, 257, 512, 513, 0x10000, 0x10001, 0xFFFFFF00, 0xFFFFFF01}
+
+// xfJobCodes is the code table of one job: xfFailCodes and n codes drawn from all of uint32 (the nine the protocol
+// defines left out: they are in the table already and SSH_FX_OK is no failure).
+func xfJobCodes(rng *rand.Rand, n int) []uint32 {
+	out := append([]uint32(nil), xfFailCodes...)
+	for ; n > 0; n-- {
+		c := rng.Uint32()
+		if c < 9 {
+			c += 9
+		}
+		out = append(out, c)
+	}
+	return out
+}
+
+// xfCodeClass names a status code for the histogram.
+func xfCodeClass(c uint32) string {
+	switch {
+	case c <= 9 || c == 255 || c == 4294967295:
+		return fmt.Sprint(c)
+	case c&0xff == 0:
+		return ">255,low-byte-0(OK)"
+	case c&0xff == 1:
+		return ">255,low-byte-1(EOF)"
+	case c > 255:
+		return ">255,other"
+	}
+	return "10..254"
+}
 
 // xfHasEOFCode: some request of the case is answered with the status SSH_FX_EOF.
 func xfHasEOFCode(cs xfCase) bool {
@@ -359,10 +399,10 @@ func xfHasEOFCode(cs xfCase) bool {
 	return cs.StatFail != nil && cs.StatFail.Code == wire.EOF
 }
 
-func xfMkFail(offs []int64, k int) map[string]xfFail {
+func xfMkFail(codes []uint32, offs []int64, k int) map[string]xfFail {
 	m := map[string]xfFail{}
 	for i, o := range offs {
-		code := xfFailCodes[(k+5*i)%len(xfFailCodes)] // (every element its own code: which one decides depends on the offsets)
+		code := codes[(k+5*i)%len(codes)] // (every element its own code: which one decides depends on the offsets)
 		m[fmt.Sprint(o)] = xfFail{Code: code, Msg: fmt.Sprintf("fail@%d", o)}
 	}
 	return m
@@ -373,6 +413,7 @@ func checkC13(c *lib.Ctx) {
 	res := &xfRes{r: r}
 	thorough := c.Tier == "thorough"
 	r.Rule = "scripted peer serving the file itself; for every client option set (quick: every (mp,conc) pair twice with rotating booleans; thorough: full product) x API {ReadAt, Read, WriteTo, WriteAt, Write, ReadFrom(Len/Size/Stat/LimitedReader/opaque), ReadFromWithConcurrency(0,1,3)} x chunk counts {1,2,3,conc+2,... and one of 5..8 for 1-3 workers (thorough: 1..8): failing indices >= MaxConcurrentRequestsPerFile reach a worker that has already served a successful chunk} x start offset rotating through {0, 1, mp+1, 2mp, len+1, 3len+mp+7, 4099} (the count must lie in [0, len] of the call's own buffer) x tail {aligned, 1, mp-1} x read geometry {ends at EOF, file longer, crosses EOF}: fail EVERY chunk index in turn (status codes rotating through ALL codes that are not OK: 4,3,1(SSH_FX_EOF),8,5,2,7,6 and the undefined 9,255,2^32-1, one message per offset; SSH_FX_EOF as the answer to a READ is the server's end of file: the read returns (prefix, io.EOF), WriteTo (prefix, nil); as the answer to a WRITE it is a failure whose error is io.EOF) and PRNG index sets of 2-4 chunks (every element its own code), each in order and with held requests answered in a PRNG permutation (window up to workers+1); plus a failing size query for WriteTo, a failing source for ReadFrom, short DATA replies with a failing refill request on the sequential read paths; plus, on every concurrent path, PAIRS of events of different kinds in one transfer of 3-5 chunks: chunk i {short DATA because the file ends inside it, SSH_FX_EOF because it ends at its start (ReadAt/Read), failure code a} and chunk j > i {failure code b != a} for the chunk pairs (0,1),(n-2,n-1),(0,n-1),(mid,mid+1) (thorough: all pairs, 3 rotations), each answered in BOTH orders by the peer (reply_order: a request is held until the ones listed before it are answered, 250 us pause after each; the histogram pair|... says how often the stated order was achieved); non-trivial = more than one chunk; distinct by (options, api, sizes, failing set, window, reply order)"
+	r.Rule += "; the status codes rotate through 21 fixed values - the ones above and 256, 257, 512, 513, 0x10000, 0x10001, 0xFFFFFF00, 0xFFFFFF01 (beyond 255, low byte / low 16 bits those of SSH_FX_OK and SSH_FX_EOF: failures like any other, reported with the code as given, never nil, never io.EOF) - plus 2 codes per job drawn from the whole uint32 range (histogram status-code=<class>|api|path); plus HANDLER-SIDE failures on a real request server {allocator off, on} (thorough: also max-tx 65536) x one covering option set (thorough two) x every API variant x 3 (thorough 12; reads x3) geometries (c13_fault.go, xfer_fault.go): the handler's ReadAt / WriteAt fails at a byte offset At in {chunk start, +1, chunk end-1, 0, size-1, size, end of the transfer} returning (0, err) or (the bytes below At, err) with err rotating through 29 error values (io.EOF = the file ends at At), through handles opened read-only (Fileread, served by fileget), read-write (OpenFile, fileputget) and write-only (Filewrite, fileput); every other case has a SECOND fault further out (requests starting at or beyond At2 = the next chunk or the one after fail with another value that the client can tell apart), a third of the faults cover 1, 2 or mp bytes only (a bad sector: requests beyond it are served); only transfers that reach the fault; oracles: a non-nil error that is what the server makes of the LOWER fault's value (status code and message; codes 1/2/3 = io.EOF / os.ErrNotExist / os.ErrPermission), io.EOF only for the handler value io.EOF and then exactly the transfer of a file of At bytes, chunks-wholly-below-At <= n <= bytes below At for reads (writes: n = the chunks wholly below At, all of them stored; ReadFrom: n = bytes consumed), delivered bytes = the file's, stored prefix = the data, sequential write paths send nothing beyond the failing chunk, offset = start + n (ReadAt/WriteAt: unchanged; ReadFrom: end of the intact prefix), Close releases the handle; keys <api>/<path>/handler-fault/<op>/<site>"
 	model := xfProbeModel(c)
 	xfProbeDefects(&model)
 	if model.Seq {
@@ -422,7 +463,7 @@ func checkC13(c *lib.Ctx) {
 		case w.SrcErr:
 			ek = "source-error"
 		case w.Fail != nil:
-			ek = fmt.Sprintf("status-%d", w.Fail.Code)
+			ek = "status-" + xfCodeClass(w.Fail.Code)
 		}
 		order := "in-order"
 		if cs.Window > 1 {
@@ -451,7 +492,7 @@ func checkC13(c *lib.Ctx) {
 			res.Hist(h)
 		}
 		for _, f := range cs.Fail {
-			res.Hist(fmt.Sprintf("status-code=%d|api=%s|path=%s", f.Code, cs.API, path))
+			res.Hist(fmt.Sprintf("status-code=%s|api=%s|path=%s", xfCodeClass(f.Code), cs.API, path))
 		}
 		if w.Fail != nil && w.FailAt >= cs.Off && path == "concurrent" {
 			idx, workers := int((w.FailAt-cs.Off)/int64(cs.Cfg.MP)), cs.EffConc()
@@ -506,6 +547,46 @@ func checkC13(c *lib.Ctx) {
 		}
 	}
 
+	// runFault runs one transfer against the request server whose handler fails (c13_fault.go).
+	runFault := func(cs xfCase, real *xfReal, dir string) (hung bool) {
+		out := xfExec(cs, real, dir, nil)
+		path := cs.Path()
+		res.Case(cs.Text(), cs.Len > cs.Cfg.MP || cs.FileLen > cs.Cfg.MP)
+		ft := cs.HFault
+		kind, _ := xfHErrByName(ft.Err)
+		val := "failure"
+		if kind.EOF && cs.IsRead() {
+			val = "end-of-file"
+		}
+		pos := "n/a"
+		if lo, total := ft.At-cs.Off, int64(cs.Len); ft.At >= cs.Off {
+			if cs.API == "WriteTo" {
+				total = int64(cs.FileLen) - cs.Off
+			}
+			switch mp := int64(cs.Cfg.MP); {
+			case lo < mp:
+				pos = "first-chunk"
+			case lo/mp*mp+mp >= total:
+				pos = "last-chunk"
+			default:
+				pos = "middle-chunk"
+			}
+		}
+		res.Hist("handler-fault|api="+cs.API+"|path="+path, "handler-fault|op="+ft.Op+"|err="+ft.Err,
+			fmt.Sprintf("handler-fault|op=%s|value=%s|n>0-with-error=%v|second-fault-further-out=%v|bad-bytes-only=%v|path=%s", ft.Op, val, ft.Partial, ft.Err2 != "", ft.Span > 0, path),
+			"handler-fault|open-served-by="+out.HandlerOp.Via+"|op="+ft.Op+"|path="+path, "handler-fault|failing="+pos+"|path="+path,
+			"handler-fault|srv="+cs.Srv.String(), fmt.Sprintf("opt=mp%d|c%d", cs.Cfg.MP, cs.Cfg.Conc))
+		fail := func(site, what string, exp, act any) {
+			k := "oracle"
+			if site == "setup" {
+				k = "tie"
+			}
+			res.Fail(lib.Failure{Kind: k, Key: cs.API + "/" + path + "/" + site, What: what, Input: cs, Expected: exp, Actual: act})
+		}
+		xfC13FaultCheck(cs, out, fail)
+		return out.Hang
+	}
+
 	if c.Replay != "" {
 		inputs, err := xfReplayInputs(c.Replay)
 		if err != nil {
@@ -515,6 +596,16 @@ func checkC13(c *lib.Ctx) {
 		for _, raw := range inputs {
 			var cs xfCase
 			if err := json.Unmarshal(raw, &cs); err != nil || cs.API == "" {
+				continue
+			}
+			if cs.HFault != nil && cs.Srv.Kind == "rs" {
+				real, err := xfStartPair(cs.Srv, cs.Cfg, root)
+				if err != nil {
+					r.Fail(lib.Failure{Kind: "tie", Key: "setup/pair", What: err.Error()})
+					return
+				}
+				runFault(cs, real, root)
+				real.Shutdown()
 				continue
 			}
 			cs.Srv = xfSrvSpec{Kind: "peer"}
@@ -550,6 +641,19 @@ func checkC13(c *lib.Ctx) {
 	for _, n := range []int{0, 1, 3} {
 		variants = append(variants, xfAPIVariant{API: "ReadFromWithConcurrency", Src: "opaque", RFC: n})
 	}
+	// handler-side failures on the request server (c13_fault.go)
+	for si, sp := range []xfSrvSpec{{Kind: "rs"}, {Kind: "rs", Alloc: true}, {Kind: "rs", MaxTx: 65536}, {Kind: "rs", Alloc: true, MaxTx: 65536}} {
+		if !thorough && si >= 2 {
+			break
+		}
+		cfgs := xfCoverCfgs(si*3 + rot + 2)
+		if thorough {
+			cfgs = append(cfgs, xfCoverCfgs(si*3+rot+5)...)
+		}
+		for _, cfg := range cfgs {
+			jobs = append(jobs, xfJob{Fault: true, Spec: sp, Cfg: cfg, Seed: c.Rand.Int63(), Idx: len(jobs)})
+		}
+	}
 	var sampleMu sync.Mutex
 	sampled := map[string]bool{}
 	spec := xfSrvSpec{Kind: "peer"}
@@ -559,6 +663,41 @@ func checkC13(c *lib.Ctx) {
 		cfg := job.Cfg
 		mp := cfg.MP
 		rng := rand.New(rand.NewSource(job.Seed))
+		if job.Fault {
+			dir := filepath.Join(root, fmt.Sprintf("j%d", job.Idx))
+			if err := os.Mkdir(dir, 0o755); err != nil {
+				res.Fail(lib.Failure{Kind: "tie", Key: "tmpdir", What: err.Error()})
+				return
+			}
+			defer os.RemoveAll(dir)
+			real, err := xfStartPair(job.Spec, cfg, dir)
+			if err != nil {
+				res.Fail(lib.Failure{Kind: "tie", Key: "setup/pair", What: err.Error(), Input: job})
+				return
+			}
+			defer func() { real.Shutdown() }()
+			per := 3
+			if thorough {
+				per = 12
+			}
+			hangs := 0
+			for _, cs := range xfC13FaultCases(rng, job.Spec, cfg, variants, job.Idx, per) {
+				if lib.Stop(xfClass(cs.Srv)+"/"+cs.API) || hangs >= 2 {
+					return
+				}
+				if runFault(cs, real, dir) {
+					// (the client of a hung call is not used again)
+					hangs++
+					real.Shutdown()
+					if real, err = xfStartPair(job.Spec, cfg, dir); err != nil {
+						res.Fail(lib.Failure{Kind: "tie", Key: "setup/pair", What: err.Error(), Input: job})
+						return
+					}
+				}
+			}
+			return
+		}
+		codes := xfJobCodes(rng, 2) // (23 codes: the stride 5 of xfMkFail and the strides of the pairs walk through all of them)
 		hold := &xfPeerHold{slot: w}
 		defer hold.Close()
 		var counts []int
@@ -601,7 +740,7 @@ func checkC13(c *lib.Ctx) {
 		for vi, v := range variants {
 			// two events of different kinds in one transfer, answered in both orders (c13_pairs.go)
 			for rep := 0; rep < map[bool]int{false: 1, true: 3}[thorough]; rep++ {
-				for _, cs := range xfC13PairCases(rng, cfg, v, job.Idx*7+vi*3+rot+rep*5, thorough) {
+				for _, cs := range xfC13PairCases(rng, codes, cfg, v, job.Idx*7+vi*3+rot+rep*5, thorough) {
 					runCase(cs, hold)
 				}
 			}
@@ -690,7 +829,7 @@ func checkC13(c *lib.Ctx) {
 								continue
 							}
 						}
-						cs.Fail = xfMkFail(set, k+si)
+						cs.Fail = xfMkFail(codes, set, k+si)
 						runCase(cs, hold)
 						if cs.Path() == "concurrent" {
 							cp := cs
@@ -710,7 +849,7 @@ func checkC13(c *lib.Ctx) {
 					switch {
 					case v.API == "WriteTo" && cfg.CR:
 						cs := base
-						cs.StatFail = &xfFail{Code: xfFailCodes[k%len(xfFailCodes)], Msg: "size query refused"}
+						cs.StatFail = &xfFail{Code: codes[k%len(codes)], Msg: "size query refused"}
 						runCase(cs, hold)
 					case (v.API == "ReadFrom" || v.API == "ReadFromWithConcurrency") && v.Src == "opaque":
 						cs := base
@@ -737,7 +876,7 @@ func checkC13(c *lib.Ctx) {
 							}
 						}
 						if len(offs) > 0 {
-							cs.Fail = xfMkFail([]int64{offs[rng.Intn(len(offs))]}, k)
+							cs.Fail = xfMkFail(codes, []int64{offs[rng.Intn(len(offs))]}, k)
 						}
 						runCase(cs, hold)
 					}
